@@ -340,6 +340,10 @@ impl Report {
             wall,
             self.exhaustive && self.caps.is_empty()
         );
+        let stuck = crate::ctl::WEDGED.load(std::sync::atomic::Ordering::SeqCst);
+        if stuck > 0 {
+            println!("NOTE: {stuck} execution(s) got stuck in real time; after three, no further executions were started (coverage below is partial)");
+        }
         // replay mode of the non-DX checks (see main.rs): the whole check was re-run; did the recorded key show up again?
         if let Ok(k) = std::env::var("VCHECK_REPLAY_KEY") {
             let hit = self.new_violations.iter().find(|v| v.0 == k).map(|v| v.1.clone()).or_else(|| self.known_hit.get(&k).map(|e| e.1.clone()));
@@ -354,11 +358,13 @@ impl Report {
                 }
             };
         }
-        if !self.machinery_errors.is_empty() {
-            return 2;
-        }
+        // a reported violation stands even if some other part of the run had a machinery problem (each violation was
+        // established on its own execution); machinery problems alone are exit 2, never a verdict
         if !self.new_keys.is_empty() {
             return 1;
+        }
+        if !self.machinery_errors.is_empty() {
+            return 2;
         }
         0
     }
